@@ -1,19 +1,46 @@
 from props import tu, run
 
+SRC = "harness/c05_pixel_pairing.cpp"
 NPARTS = 10
-# cases per part (models + ordered pairs + binding cases), the same in both tiers
-CASES = [0] * NPARTS
+# cases per part (one per model + one per ordered pair + binding cases); the same in both tiers
+CASES = [78, 76, 80, 85, 84, 96, 56, 56, 56, 56]
 
 CFG = dict(
     level="exploration",
-    level_text="(filled in below)",
-    level_note="",
-    technique="",
-    rule="",
+    level_text=("Runs the real construction / assignment / ==,!= / at_c / semantic_at_c / get_color / operator[] / static_* code on "
+                "every ordered pair (549 pairs) of 125 pixel models: pixel<T,L> values and references, planar references (mutable and "
+                "const), packed pixels and bit-aligned references (mutable and const) of gray, rgb{rgb,bgr}, rgba{rgba,bgra,argb,abgr}, "
+                "cmyk, devicen<2..5>, channel types u8/u16/float32 and packed bit sizes 565, 332, 222, 123, 4444, 5551, 2222, 4, 1. Each named "
+                "colour is written and read back through raw bytes/bits located by hand-written layout tables (the layout's name is the "
+                "order in memory), never through GIL. One-hot, seeded and swept colours; functors record what the static_* algorithms hand "
+                "them. Observation of bounded inputs under ASan+UBSan (-O0) and, in the thorough tier, the optimised native build."),
+    level_note=("trusts the harness's layout tables and g++ 12; only the instantiated models are decided; user-defined layouts "
+                "(kymc, permuted devicen) are included because they are the only way to reach a non-identity mapping for cmyk and the 2- and "
+                "5-channel colour bases; bit-aligned references use the bit field GIL's bit_aligned_image_type chooses (pixel bits + 7)"),
+    technique="run the real pixel operations on holder objects that own the storage; oracle = raw memory + hand-written layout tables; recording functors for static_*",
+    rule=("one case per ordered pair (source model, destination model) of a family of compatible models, one case per model for the unary "
+          "accessors/algorithms, one per proxy-binding constructor. evaluations = oracle comparisons made (colour read-backs, ==/!= verdicts, "
+          "address checks, visit-log checks). distinct_nontrivial = colour vectors tried per case that are distinct by construction "
+          "(2N one-hot / inverted one-hot vectors, all-0/all-max, every swept value of each channel) plus the measured number of distinct "
+          "seeded (colours, bit offset) vectors; every one is non-trivial: the destination is pre-filled with the bitwise complement, so a "
+          "no-op or a mis-paired copy is visible."),
     exhaustive={"quick": False, "thorough": False},
-    exhaustive_domain={"quick": "", "thorough": ""},
-    types=[],
-    assumptions=[],
-    tus=[tu("c05_asan%d" % k, "harness/c05_pixel_pairing.cpp", "asan", extra=["-O0", "-DC05_PART=%d" % k]) for k in range(NPARTS)],
-    runs=[run("c05_asan%d" % k, shards=2, min_cases={"quick": 1, "thorough": 1}) for k in range(NPARTS)],
+    exhaustive_domain={"quick": "every value of each <=10-bit channel in turn (others seeded); 16-bit channels every 251st value + ends; float 64 seeded values per channel; all 8 bit offsets of bit-aligned references",
+                       "thorough": "every value of each integral channel in turn (8-, 16-bit and packed; others seeded); float 4096 seeded values per channel; all 8 bit offsets"},
+    types=["pixel<u8|u16|float32, gray|rgb|bgr|rgba|bgra|argb|abgr|cmyk|kymc*|devicen2..5 (+ one permuted layout each*)>  (*user-defined layout<>)",
+           "planar_pixel_reference<T&|T const&, rgb|rgba|cmyk|devicen2..5>",
+           "packed_pixel<u8|u16, sizes 565|332|222|123|4444|5551|2222|4|1, every layout of the colour space>",
+           "bit_aligned_pixel_reference<min_fast_uint<bits+7>, same sizes, every layout, mutable|const> at bit offsets 0..7"],
+    assumptions=["layout tables written by hand from the layout names (\"argb\" = a,r,g,b in memory); packed/bit-aligned: first channel in memory at the least significant bits (the documented rgb123 example)",
+                 "pairs are formed inside a family of compatible models only (same colour space, same channel value types per colour)",
+                 "bit-aligned references get >= 16 bytes of slack behind the pixel (F1 is C01's) and a BitField of pixel bits + 7",
+                 "checks named *-outside (bytes/bits next to the destination changed) are auxiliary: the property does not state them",
+                 "16-bit sweeps are stratified in the quick tier; float channels are sampled in both tiers"],
+    tus=[tu("c05_asan%d" % k, SRC, "asan", extra=["-O0", "-DC05_PART=%d" % k]) for k in range(NPARTS)]
+        + [tu("c05_native%d" % k, SRC, "native", extra=["-DC05_PART=%d" % k], tiers=("thorough",)) for k in range(NPARTS)],
+    runs=[run("c05_asan%d" % k, shards={"quick": 2, "thorough": 8}, min_cases={"quick": CASES[k], "thorough": CASES[k]}) for k in range(NPARTS)]
+        + [run("c05_native%d" % k, shards={"quick": 2, "thorough": 4}, min_cases={"quick": CASES[k], "thorough": CASES[k]},
+               secondary=True, tiers=("thorough",)) for k in range(NPARTS)],
+    require_obs=["pair.rgba.u8", "pair.rgba.packed4444", "pair.rgba.packed5551", "pair.rgb.packed565", "pair.cmyk.u8", "pair.devicen5.u8",
+                 "model.rgba.f32", "model.rgb.packed123"],
 )
